@@ -185,6 +185,7 @@ type storeEnv struct {
 	valueOptionalFrom uint64
 	optLo, optHi      uint64 // an additional range of such ids (from an earlier crash)
 	crashDepth        int    // number of crashes this store directory went through
+	wideKeys          int    // > 0: number of extra keys to draw from
 }
 
 func (e *storeEnv) valueOptional(id uint64) bool {
@@ -780,6 +781,15 @@ func (e *storeEnv) verifyProofs(what string, n uint64, states []uint64) {
 
 var stKeys = []string{"k0", "k1", "k2", "k3", "k4", "k5", "ka/x", "ka/y", "ka/yy", "kb"}
 
+// pickKey draws a key: from the small shared set, or (in runs that opted for a
+// wide key space, to grow multi-level index trees) from a few dozen keys.
+func (e *storeEnv) pickKey() string {
+	if e.wideKeys > 0 && e.r.Pct(70) {
+		return fmt.Sprintf("w%03d/%s", e.r.Intn(e.wideKeys), "padpadpadpadpadpad"[:e.r.Intn(18)])
+	}
+	return stKeys[e.r.Intn(len(stKeys))]
+}
+
 type txPlan struct {
 	entries []ledEntry
 	specs   []func(tx *store.OngoingTx) error
@@ -792,7 +802,7 @@ func (e *storeEnv) genWrites(task string, tx *store.OngoingTx, maxEntries int, m
 	used := map[string]bool{}
 	var out []ledEntry
 	for i := 0; i < n; i++ {
-		k := stKeys[r.Intn(len(stKeys))]
+		k := e.pickKey()
 		if used[k] {
 			continue
 		}
